@@ -81,6 +81,8 @@ impl RoomLockService {
         locked: &mut HashSet<Uid>,
         avalaible: &mut usize,
     ) {
+        //peers that cannot be served now keep their place at the head of the line
+        let mut skipped: Vec<[u8; 32]> = Vec::new();
         for _ in 0..peer_queue.len() {
             if let Some(peer) = peer_queue.pop_back() {
                 if let Some(mut lock_request) = peer_lock_request.remove(&peer) {
@@ -99,13 +101,20 @@ impl RoomLockService {
                     }
                     if !lock_request.rooms.is_empty() {
                         peer_lock_request.insert(peer, lock_request);
-                        peer_queue.push_front(peer);
+                        if lock_aquired {
+                            peer_queue.push_front(peer);
+                        } else {
+                            skipped.push(peer);
+                        }
                     }
                     if lock_aquired {
                         break;
                     }
                 }
             }
+        }
+        for peer in skipped.into_iter().rev() {
+            peer_queue.push_back(peer);
         }
     }
 
